@@ -7,7 +7,7 @@ _fa = "rtps::fragment_assembler::verif_harness_frag"
 PROP = {
     "title": "reliable reader: in order, once, no holes, bytes intact",
     "design_ref": "DESIGN.md section 3, C01",
-    "inject": dict(ENV_INJECT, **{"src/rtps/rtps_writer_proxy.rs": ["wproxy"], "src/rtps/fragment_assembler.rs": ["frag"], "src/rtps/writer.rs": ["fragw"]}),
+    "inject": dict(ENV_INJECT, **{"src/rtps/rtps_writer_proxy.rs": ["wproxy"], "src/rtps/fragment_assembler.rs": ["frag"], "src/rtps/writer.rs": ["fragw"], "src/structure/dds_cache.rs": ["tcache"]}),
     "shim_files": RTPS_SHIM_FILES + ["src/structure/sequence_number.rs", "src/rtps/message.rs"],
     "cap": {"quick": 4, "thorough": 6},
     "sn_window": {"quick": 4, "thorough": 5},
@@ -18,6 +18,7 @@ PROP = {
         H("c01_proxy_inductive_o62", _wp, "same, near the top of the i64 range", "origin 2^62"),
         H("c05_arrival_f4_n9", _fa, "(shared with C05) DATAFRAG path of C01: a sample cut by the real writer-side builder, ANY assembly state, ANY arriving fragment: delivered exactly when complete, bytes equal the written ones", "f=4, n=9 (3 fragments); payload, state and arrival symbolic", timeout=900),
         H("c05_once_via_proxy_f4_n5_sn1", _fa, "(shared with C05) late duplicate fragments reassemble a second copy, the writer-proxy filter of Reader::process_received_data accepts exactly one", "f=4, n=5", timeout=900),
+        H("c01_topic_cache_handover", "structure::dds_cache::verif_harness_tcache", "real TopicCache: three changes of one writer arriving out of SN order (1, 4, 2), symbolic reliably-received marker and read pointer: get_changes_in_range_reliable yields exactly the stored SNs strictly between pointer and marker, in increasing order, once, with the bytes that arrived", "SNs 1..4, 3 changes", tier="thorough", timeout=2400),
         H("c01_proxy_sequence_k3", _wp, "3 arbitrary operations from the initial proxy", "k=3, window W"),
         H("c01_proxy_sequence_k5", _wp, "5 arbitrary operations from the initial proxy", "k=5, window W", tier="thorough", timeout=2400),
     ],
